@@ -122,6 +122,19 @@ def syntax_faults(r, text):
     for pat, rep in subs:
         if re.search(pat, text):
             yield 'invalid word %r' % rep, re.sub(pat, rep, text, count=1)
+    # with the option off nothing accepts an arbitrary `key: 'value'` setting or body line
+    ms = list(re.finditer(r' \[(?!\])', text))
+    if ms:
+        m = r.choice(ms)
+        yield 'property-shaped unknown setting first', text[:m.end()] + "colour: 'red', " + text[m.end():]
+    ms = list(re.finditer(r'(?<!\[)\]', text))
+    if ms:
+        m = r.choice(ms)
+        yield 'property-shaped unknown setting last', text[:m.start()] + ", colour: 'red'" + text[m.start():]
+    ms = [i for i, l in enumerate(lines) if re.match(r'^table\b.*\{\s*$', l.strip(), flags=re.I) and not l.startswith((' ', '\t'))]
+    if ms:
+        i = r.choice(ms)
+        yield 'property line in a table body', '\n'.join(lines[:i + 1] + ["  colour: 'red'"] + lines[i + 1:])
     # missing closing brace of the last element / extra opening brace
     idx = text.rfind('}')
     if idx >= 0:
